@@ -146,6 +146,29 @@ def frame(p: bytes, cuts=None, stored=None):
     return bytes(out), amb
 
 
+def insert_empty_chunks(data: bytes, where) -> bytes:
+    """where: [(chunk_index, "stored" | "compressed")]: a chunk whose plaintext is empty is put in front of that chunk
+    (index == number of chunks: at the end).  Stored: 00 00 00 00; compressed: the raw snappy encoding of nothing (00)."""
+    out = bytearray()
+    pos = 0
+    i = 0
+    data = bytes(data)
+    todo = {}
+    for idx, kind in where:
+        todo.setdefault(idx, []).append(kind)
+    while pos < len(data):
+        for kind in todo.pop(i, []):
+            out += b"\0\0\0\0" if kind == "stored" else b"\0\x01\0\0\0"
+        n = data[pos + 1] | data[pos + 2] << 8 | data[pos + 3] << 16
+        out += data[pos:pos + 4 + n]
+        pos += 4 + n
+        i += 1
+    for idx in sorted(todo):
+        for kind in todo[idx]:
+            out += b"\0\0\0\0" if kind == "stored" else b"\0\x01\0\0\0"
+    return bytes(out)
+
+
 def container_rule_violations(data: bytes) -> list[str]:
     """Container rules for *library output* (C05)."""
     bad = []
